@@ -86,6 +86,7 @@ pub struct Grid { name: &'static str, only: Option<String>, pub cases: usize, pu
 impl Grid {
     pub fn new(name: &'static str) -> Grid {
         std::panic::set_hook(Box::new(|_| {}));
+        println!();
         Grid { name, only: std::env::var("VERIF_GRID_ONLY").ok().filter(|s| !s.is_empty()), cases: 0, fails: 0 }
     }
     /// one case: `f` returns Err(description) when the property's statement does not hold for this input
